@@ -213,8 +213,8 @@ Qed.
 
 (* ---------- the two entry points ---------- *)
 
-Theorem fast_ix_equiv_resolve hard v env raws hint cps :
-  resolve_conflict_ix fast_ix hard v env raws hint cps = resolve_conflict hard v env raws hint cps.
+Theorem fast_ix_equiv_resolve H hard v env raws hint cps :
+  resolve_conflict_ix H fast_ix hard v env raws hint cps = resolve_conflict H hard v env raws hint cps.
 Proof.
   unfold resolve_conflict, resolve_conflict_ix.
   destruct (remove_peers _ cps) as [|c cps1]; [reflexivity|].
